@@ -152,7 +152,7 @@ Definition tiny_world : world :=
   {| classes := [(u "v21.File", [(u "extensions", KExt true)]); (u "v21.NTFSExt", [(u "sid", KAtom)]);
                  (u "v21.ObservedData", [(u "objects", KObs true)])];
      registry := [(u "2.1/extensions/ntfs-ext", u "v21.NTFSExt"); (u "2.1/observables/file", u "v21.File")];
-     det_id := []; defaults := [] |}.
+     det_id := []; defaults := []; defn_classes := [] |}.
 
 Definition with_ext (cm : copy_mode) : variant := {| cm_ext := cm; cm_obs := Deep; cm_pobs := Deep; cm_nv := Deep; cm_fac := Deep |}.
 Definition with_pobs (cm : copy_mode) : variant := {| cm_ext := Deep; cm_obs := Deep; cm_pobs := cm; cm_nv := Deep; cm_fac := Deep |}.
